@@ -190,6 +190,9 @@ func (o OpSpec) Proto() *spb.AFTOperation {
 			if v, ok := xs[2]; ok {
 				e.MacAddress = &ywrapper.StringValue{Value: MACVals[v]}
 			}
+			if v, ok := xs[3]; ok { // pop-top-label: 1 = true, 2 = explicitly false
+				e.PopTopLabel = &ywrapper.BoolValue{Value: v == 1}
+			}
 			if o.Bad {
 				e.EncapsulateHeader = enums.OpenconfigAftTypesEncapsulationHeaderType(99)
 			}
@@ -391,6 +394,9 @@ func Canon(contents map[string]*aft.RIB) []CanonNI {
 						k = 999
 					}
 					x = append(x, [2]uint64{2, k})
+				}
+				if nh.PopTopLabel != nil {
+					x = append(x, [2]uint64{3, map[bool]uint64{true: 1, false: 2}[*nh.PopTopLabel]})
 				}
 				l = append(l, kv{idx, fmt.Sprintf("mk_nh %s", coqX(x))})
 			}
